@@ -71,6 +71,14 @@ def main(argv=None) -> int:
             except Exception as e:  # a bug in one rule must not hide the other rules' verdicts
                 tb = traceback.extract_tb(e.__traceback__)[-1]
                 errors.append(f"{n}: internal error {type(e).__name__}: {e} ({tb.filename.split('/')[-1]}:{tb.lineno})")
+        # second opinions: an analysis error is tolerated when the rules deciding the same obligations by other means completed
+        from .registry import apply_cover, apply_demote
+
+        demoted = apply_demote(results, repo) if not args.only else []
+
+        tolerated = []
+        if not args.only:
+            errors, tolerated = apply_cover(errors, {r.rule for r in results}, repo)
         extra = {
             "modules_parsed": len(repo.modules),
             "functions_in_repo": sum(len(m.funcs) for m in repo.modules.values()),
@@ -86,7 +94,15 @@ def main(argv=None) -> int:
                 return 2
         if errors:
             extra["analysis_errors"] = errors
+        if tolerated:
+            extra["second_opinion_unavailable"] = tolerated
+        if demoted:
+            extra["structural_second_opinions_overruled"] = demoted
         rc = finish(prop, args.tier, results, t0, extra) if results else 0
+        for d_ in demoted:
+            print(f"NOTE property={prop}: structural second opinion overruled by the interpreting rule: {d_[:200]}")
+        for e in tolerated:
+            print(f"NOTE property={prop}: second opinion unavailable ({e}); the same obligations were decided by the covering rule(s)")
         for e in errors:
             print(f"ANALYSIS-ERROR property={prop}: {e}")
         if rc == 1:
